@@ -1,5 +1,12 @@
 -- root of the library: every property module (imports pull in models, specs, ties)
+import PC.Props.C01
 import PC.Props.C02
+import PC.Props.C03
+import PC.Props.C04
+import PC.Props.C05
 import PC.Props.C06
+import PC.Props.C08
+import PC.Props.C09
 import PC.Props.C10
+import PC.Props.C12
 import PC.Props.C18
